@@ -159,6 +159,9 @@ func c13Gen(t *simrt.Tape, free bool) *c13Scenario {
 		if sc.Cmd == "reduce-large" {
 			sc.Cmd = "reduce"
 			n := t.WRange(1030, 1300)
+			if free {
+				n = c13LargeN(t)
+			}
 			for i := 0; i < n; i++ {
 				sc.Keys = append(sc.Keys, fmt.Sprintf("g%04d", (i*7919)%n))
 				sc.Counts = append(sc.Counts, 1+t.W(2))
@@ -262,7 +265,7 @@ func c13Gen(t *simrt.Tape, free bool) *c13Scenario {
 		sc.Cmd = "histo"
 		n := t.WRange(128, 220)
 		if free {
-			n = t.WRange(1030, 1300)
+			n = c13LargeN(t)
 		}
 		for i := 0; i < n; i++ {
 			sc.Keys = append(sc.Keys, fmt.Sprintf("k%04d", i))
@@ -318,6 +321,17 @@ func c13Gen(t *simrt.Tape, free bool) *c13Scenario {
 		}
 	}
 	return sc
+}
+
+// c13LargeN: key sets just above the sizes at which code tends to switch strategy (a thousand, two thousand, four thousand)
+func c13LargeN(t *simrt.Tape) int {
+	switch t.W(6) {
+	case 0, 1:
+		return t.WRange(2050, 2400)
+	case 2:
+		return t.WRange(4100, 4300)
+	}
+	return t.WRange(1030, 1300)
 }
 
 func (sc *c13Scenario) lines() []c3Line {
@@ -628,6 +642,11 @@ func init() {
 				rc.Viol[len(rc.Viol)-1].Msg += fmt.Sprintf("\nvariant: %s\nscenario: %v", v, desc)
 				return run{}, false
 			}
+			if o.Res.Exit != 0 && sa != strings.ToLower(sa) {
+				// a spelling with capital letters that this tree does not accept: nothing to compare
+				rc.Probes["capitalised-sort-name-rejected"]++
+				return run{}, false
+			}
 			if o.Res.Exit != 0 {
 				rc.Violate("HARNESS-exit", "exit %d for %v: %q", o.Res.Exit, desc, clip(string(o.Res.Stderr), 300))
 				return run{}, false
@@ -798,6 +817,16 @@ func init() {
 					if strings.Join(r.rows, "\x00") != strings.Join(base.rows, "\x00") || strings.Join(r.cols, "\x00") != strings.Join(base.cols, "\x00") {
 						rc.Violate("spelling-differs", "sort=%s keys=%s cmd=%s: `%s` shows rows %q cols %q, the equivalent `%s` shows rows %q cols %q\nvariant: %s\nscenario: %v", sortArg, keysKind, sc.Cmd, sortArg, base.rows, base.cols, same, r.rows, r.cols, base.v, desc)
 					}
+				}
+			}
+		}
+		// a sort name typed with capital letters, where the tree accepts it, is the same mode
+		if len(rc.Viol) == 0 && sc.Sort != "reduce" && t.WBool(1, 3) {
+			name := []string{strings.ToUpper(sc.Sort), strings.ToUpper(sc.Sort[:1]) + sc.Sort[1:]}[t.W(2)]
+			if r, ok := exec(name+sc.Mod, base.v, nil); ok {
+				rc.Probes["capitalised-sort-name-compared"]++
+				if strings.Join(r.rows, "\x00") != strings.Join(base.rows, "\x00") || strings.Join(r.cols, "\x00") != strings.Join(base.cols, "\x00") {
+					rc.Violate("spelling-differs", "sort=%s keys=%s cmd=%s: `%s` shows rows %q cols %q, the same mode typed as `%s` shows rows %q cols %q\nvariant: %s\nscenario: %v", sortArg, keysKind, sc.Cmd, sortArg, base.rows, base.cols, name+sc.Mod, r.rows, r.cols, base.v, desc)
 				}
 			}
 		}
